@@ -144,7 +144,7 @@ TREE_TB = [
 PROPS = {
     "C17": {
         "engines": [{"go": "filterdiff", "driver": "filter",
-                     "select": lambda l: head(l) in ("eq", "eqperm", "inconsistent-equals", "nil-equals-wrong"),
+                     "select": lambda l: head(l) in ("eq", "eqperm", "inconsistent-equals", "nil-equals-wrong", "unstable-equals"),
                      "classify": cls_c17, "nontrivial": eq_nontrivial}],
         "rule": "filterdiff: every term of the universe (leaves, workload filters, random And/Or/Not compositions to depth 3) "
                 "against itself built twice, all pairs of leaves (thorough: of all depth-1 terms), sampled pairs incl. near-misses, "
@@ -254,7 +254,10 @@ PROPS = {
     "C11": {
         "engines": [tree_engine("step,burst,stall", ("C11",), None, 1500, 25000),
                     # consumers a whole buffer behind when their node (or an ancestor) is closed
-                    tree_engine("overflow,stall", ("C11",), None, 300, 4000)],
+                    tree_engine("overflow,stall", ("C11",), None, 300, 4000),
+                    # the root itself: Close / cancel after watch and list faults must still take the controller (and its
+                    # subscriber) down
+                    ctrl_engine("", ("C11",), 300, 8000)],
         "rule": "tree engine: random trees mixing all six constructors and monitors up to depth 4; every kind of node gets closed (Close on a "
                 "subscription, filtered subscription, clone, monitor; root Close or context cancel at the end), at quiescent points and inside "
                 "bursts with events / Refilter / relists in flight, with stalled consumers present. After every action the Done() of every node "
@@ -268,7 +271,7 @@ PROPS = {
                     # shutdown at every point of a workload, also at the instant of readiness: no callback after Done, none if
                     # the publisher never became ready, OnInitialize never with the result of a failed List
                     tree_engine("c12", ("C16",), ("mon",), 1400, 14000),
-                    {"go": "typed", "bin": "kconc", "driver": "typed", "actions": ("scenario", "tstart", "tsrv", "end"),
+                    {"go": "typed", "bin": "kconc", "driver": "typed", "actions": ("scenario", "tstart", "tsrv", "tfref", "end"),
                      "args_quick": ["-n", "96"], "args_thorough": ["-n", "2400"], "classify": ctrl_cls(("C16",)), "resets": ["scenario"],
                      "nontrivial": lambda l: l.startswith("(tobs") and ("(create (obj" in l or "(update (obj" in l or "(delete (obj" in l)}],
         "rule": "tree engine: monitors attached under every kind of publisher at arbitrary moments (before/after readiness, inside bursts), "
@@ -380,7 +383,7 @@ PROPS = {
         "witness": "genmismatch",
         "engines": [
             {"go": "rest", "driver": "rest", "classify": ctrl_cls(("C20",)), "nontrivial": lambda l: l.startswith("(rest "), "resets": []},
-            {"go": "typed", "bin": "kconc", "driver": "typed", "actions": ("scenario", "tstart", "tsrv", "end"),
+            {"go": "typed", "bin": "kconc", "driver": "typed", "actions": ("scenario", "tstart", "tsrv", "tfref", "end"),
              "args_quick": ["-n", "120"], "args_thorough": ["-n", "7200"],
              "classify": ctrl_cls(("C20",)), "resets": ["scenario"],
              "nontrivial": lambda l: l.startswith("(tobs") and ("(create (obj" in l or "(update (obj" in l or "(delete (obj" in l)},
